@@ -378,7 +378,7 @@ fn c04(cx: &Ctx, o: &mut Outcome) {
                     cited.push(k);
                 }
             }
-        } else if let Some(k) = r.panics.iter().position(|p| p.conn == Some(i)) {
+        } else if let Some(k) = r.panics.iter().position(|p| p.conn == Some(i) && !p.msg.starts_with("simulated application panic")) {
             // relaxed regime: whatever the transport did, no panic
             if !cited.contains(&k) {
                 cited.push(k);
@@ -404,7 +404,8 @@ fn c04(cx: &Ctx, o: &mut Outcome) {
             }
         }
         End::ServerExited => {
-            o.verdicts.push(v("C04", "server_exited", "the accept loop returned: the server process would exit", None));
+            let why = r.threads.iter().find(|t| t.name == "accept" && !t.alive).and_then(|t| t.panic.as_ref()).map(|p| format!(" ({})", panic_text(p))).unwrap_or_default();
+            o.verdicts.push(v("C04", "server_exited", format!("the accept loop ended{}: the server no longer accepts connections", why), None));
         }
         End::Deadlock(_) | End::StepLimit => {
             if o.verdicts.is_empty() {
@@ -474,6 +475,12 @@ fn wellformed_verdicts(cx: &Ctx, i: usize, o: &mut Outcome) {
         Some(r) => r,
         None => return,
     };
+    // the workload's hostile values spell out header lines called X-Injected / Set-Cookie: injected
+    for (n, val) in &resp.headers {
+        if n.eq_ignore_ascii_case("X-Injected") || (n.eq_ignore_ascii_case("Set-Cookie") && val.contains("injected")) || n.eq_ignore_ascii_case("X-Tail") {
+            o.verdicts.push(v("C05", "reflection.injected_header_line", format!("request {:?}: client text became the response header line {:?}: {:?}", req_txt, n, val), Some(i)));
+        }
+    }
     for name in ["Content-Length", "Content-Type", "Content-Range", "Transfer-Encoding"] {
         if resp.count(name) > 1 {
             o.verdicts.push(v("C05", format!("framing_header_twice.{}", name), format!("request {:?}: {} appears {} times", req_txt, name, resp.count(name)), Some(i)));
@@ -630,7 +637,10 @@ fn c06(cx: &Ctx, o: &mut Outcome) {
                     }
                 }
             }
-            o.verdicts.push(v("C06", format!("server_exited.{}", cause), format!("the accept loop returned after connection {:?} ({}): no later connection is served; history [{}]", which, cause, history), which));
+            if let Some(p) = r.threads.iter().find(|t| t.name == "accept" && !t.alive).and_then(|t| t.panic.as_ref()) {
+                cause = format!("accept_thread_{}", panic_class(p));
+            }
+            o.verdicts.push(v("C06", format!("server_exited.{}", cause), format!("the accept loop ended after connection {:?} ({}): no later connection is served; history [{}]", which, cause, history), which));
         }
         End::Completed => {
             // capacity probe and follow-up must have been answered correctly
